@@ -940,3 +940,102 @@ def replay_drain(h, case):
                for c in loop.exceptions[n_exc:]]
     return {'divergences': div, 'violations': viol, 'obs': obs,
             'loop_exceptions': loopexc}
+
+
+# ---------------------------------------------------------------------------
+# ExitImpliesAllOutput end to end: a real server handler writes and calls
+# exit() / exit_with_signal(); the client uses run() / wait() with a window
+# that is small compared with the output, so that the exit status overtakes
+# output still buffered in the server's channel.
+
+def _exit_conn(h):
+    import json
+
+    async def handler(process):
+        spec = json.loads(process.command)
+        for dt, n in spec['writes']:
+            data = (b'o' if dt == 'out' else b'e') * n
+            (process.stdout if dt == 'out' else process.stderr).write(data)
+        if spec['how'] == 'status':
+            process.exit(spec['status'])
+        elif spec['how'] == 'signal':
+            process.exit_with_signal('KILL', False, 'killed')
+        else:
+            process.close()
+    return h._conn(('px',), process_factory=handler, encoding=None)
+
+
+def exit_scenarios(tier):
+    wins = [1, 2, 3, 8, 64, None]
+    sizes = [(0, 0), (1, 0), (0, 1), (3, 2), (7, 5), (64, 33)]
+    if tier != 'quick':
+        sizes += [(200, 0), (129, 130), (1000, 999)]
+    out = []
+    for w in wins:
+        for so, se in sizes:
+            for order in ('oe', 'eo', 'oeoe'):
+                if order == 'oe':
+                    writes = [('out', so), ('err', se)]
+                elif order == 'eo':
+                    writes = [('err', se), ('out', so)]
+                else:
+                    writes = [('out', so // 2), ('err', se // 2),
+                              ('out', so - so // 2), ('err', se - se // 2)]
+                for how in ('status', 'signal', 'none'):
+                    for mode in ('run', 'read', 'delay'):
+                        out.append(dict(window=w, writes=writes, how=how,
+                                        status=(so + se) % 7, mode=mode,
+                                        so=so, se=se))
+    return out
+
+
+def replay_exit(h, sc):
+    import json
+    conn = _exit_conn(h)
+    loop = h.loop
+    cmd = json.dumps({'writes': sc['writes'], 'how': sc['how'],
+                      'status': sc['status']})
+    kw = {} if sc['window'] is None else {'window': sc['window']}
+    pre = {'out': b'', 'err': b''}
+
+    async def go():
+        if sc['mode'] == 'run':
+            return await conn.run(cmd, encoding=None, **kw)
+        proc = await conn.create_process(cmd, encoding=None, **kw)
+        if sc['mode'] == 'read':
+            # read a little from the stream the server writes first
+            first = [dt for dt, n in sc['writes'] if n]
+            if first and first[0] == 'out':
+                pre['out'] = await proc.stdout.read(2)
+            elif first:
+                pre['err'] = await proc.stderr.read(2)
+        else:
+            for _ in range(20):
+                await asyncio.sleep(0)
+        return await proc.wait()
+    viol = []
+    try:
+        res = loop.run_until_complete(go())
+    except Deadlock:
+        return [('hung-wait', sc['mode'],
+                 'run()/wait() never returned although the server exited')]
+    loop.run_until_idle()
+    reported = res.exit_status is not None or res.exit_signal is not None
+    so = pre['out'] + res.stdout
+    se = pre['err'] + res.stderr
+    if reported and (so != b'o' * sc['so'] or se != b'e' * sc['se']):
+        viol.append(('exit-implies-all-output', sc['mode'],
+                     f'exit status {res.exit_status} signal '
+                     f'{res.exit_signal} reported with stdout {len(so)}/'
+                     f'{sc["so"]} and stderr {len(se)}/{sc["se"]} bytes'))
+    if not reported and (so != b'o' * sc['so'] or se != b'e' * sc['se']):
+        viol.append(('nothing-lost', sc['mode'],
+                     f'channel closed cleanly, stdout {len(so)}/{sc["so"]} '
+                     f'stderr {len(se)}/{sc["se"]} bytes'))
+    if sc['how'] == 'status' and res.exit_status != sc['status'] or \
+            sc['how'] == 'signal' and (res.exit_signal or [None])[0] != 'KILL' \
+            or sc['how'] == 'none' and reported:
+        viol.append(('exit-report', sc['mode'],
+                     f'server ended with {sc["how"]}, client reports status '
+                     f'{res.exit_status} signal {res.exit_signal}'))
+    return viol
